@@ -60,9 +60,10 @@ type vwPeerSpec struct {
 }
 
 type vwPeer struct {
-	spec vwPeerSpec
-	p    *peer
-	up   bool
+	spec    vwPeerSpec
+	p       *peer
+	up      bool
+	deleted bool
 	view map[string]vwHeld // key "prefix#pathid"
 	// everything ever flushed, for diagnostics
 	nMsgs int
@@ -133,7 +134,16 @@ func (w *vWorld) delPeer(vp *vwPeer) {
 		w.t.Fatalf("DeletePeer: %v", err)
 	}
 	vp.up = false
+	vp.deleted = true
 	vp.view = map[string]vwHeld{}
+}
+
+// local injects (or withdraws) a locally originated route the way AddPath / DeletePath do after
+// converting the API message: addPathList -> propagateUpdate(nil, …) inside a management operation.
+func (w *vWorld) local(p *table.Path) {
+	if err := w.s.mgmtOperation(func() error { return w.s.addPathList("", []*table.Path{p}) }, true); err != nil {
+		w.t.Fatalf("addPathList: %v", err)
+	}
 }
 
 func (w *vWorld) now() time.Time {
@@ -237,6 +247,9 @@ func (w *vWorld) drain(vp *vwPeer) []*table.Path {
 // flush plays sendMessageloop for everything queued: one coalesced batch through the real
 // packer and codec, applied to the peer's view in order. Returns the number of messages.
 func (w *vWorld) flush(vp *vwPeer) int {
+	if vp.deleted {
+		return 0 // its queue is closed
+	}
 	paths := w.drain(vp)
 	if !vp.up || len(paths) == 0 {
 		return 0
